@@ -85,6 +85,8 @@ def wellformed(ex, o, data, method, res, wit, head_ascii=True):
 def case(prog, params):
     ex = new_ex(prog)
     if params['kind'] == 'multipart': ex.fork_read_until = 6; params = dict(params, method='POST')
+    import os
+    if os.environ.get('C05_FORK'): ex.fork_read_until = int(os.environ['C05_FORK'])
     cons = []
     reqb, sy = build_request(params, cons)
     res = {'violations': [], 'inconclusive': [], 'samples': [], 'kinds': {}, 'responses': 0}
